@@ -106,20 +106,26 @@ def implBlock (itemsize : Nat) (cbuf : Bytes) (n bi : Nat) : Except Err (List Na
     if idxs.any (fun k => lut.length ≤ k) then .error .format    -- IndexError caught
     else .ok (idxs.map fun k => lut[k]!)
 
-def implDecode (itemsize : Nat) (s : Shape) (bk : Blk3) (buf : Bytes) : Except Err (List Nat) := do
+/-- all blocks of channel `c`: `_decode_channel_into` on `buf[offset:]` -/
+def implChannel (itemsize : Nat) (s : Shape) (bk : Blk3) (buf : Bytes) (c : Nat) :
+    Except Err (List (List Nat)) :=
+  let g := gridOf s bk
+  let ng := g.1 * g.2.1 * g.2.2
+  let off := 4 * leVal ((buf.drop (4 * c)).take 4)
+  if off + 8 * ng > buf.length then .error .format else
+  (List.range ng).mapM fun bi => implBlock itemsize (buf.drop off) (bk.bx * bk.by' * bk.bz) bi
+
+def implDecode (itemsize : Nat) (s : Shape) (bk : Blk3) (buf : Bytes) : Except Err (List Nat) :=
   let g := gridOf s bk
   let ng := g.1 * g.2.1 * g.2.2
   if buf.length < s.c * (4 + 8 * ng) then .error .format else
-  let n := bk.bx * bk.by' * bk.bz
-  let chans ← (List.range s.c).mapM fun c => do
-    let off := 4 * leVal ((buf.drop (4 * c)).take 4)
-    if off + 8 * ng > buf.length then .error .format else
-    let cbuf := buf.drop off
-    (List.range ng).mapM fun bi => implBlock itemsize cbuf n bi
-  -- scatter the blocks (removing the padding)
-  .ok ((voxelCoords s).map fun (c, z, y, x) =>
-    let bi := x / bk.bx + g.1 * (y / bk.by' + g.2.1 * (z / bk.bz))
-    let i := x % bk.bx + bk.bx * (y % bk.by' + bk.by' * (z % bk.bz))
-    ((chans[c]!)[bi]!)[i]!)
+  match (List.range s.c).mapM (implChannel itemsize s bk buf) with
+  | .error e => .error e
+  | .ok chans =>
+    -- scatter the blocks (removing the padding)
+    .ok ((voxelCoords s).map fun (c, z, y, x) =>
+      let bi := x / bk.bx + g.1 * (y / bk.by' + g.2.1 * (z / bk.bz))
+      let i := x % bk.bx + bk.bx * (y % bk.by' + bk.by' * (z % bk.bz))
+      ((chans[c]!)[bi]!)[i]!)
 
 end NgVerif.Cseg
